@@ -93,6 +93,18 @@ family(
     lists=[['k1'], ['k2'], ['k1', 'k2']],
 )
 
+# ---- pair: the smallest pipeline, for exhaustive PATH exploration with two chain variables (state the model does
+# not have - memos, caches inside the objects - only shows up on particular call sequences)
+family(
+    'pair',
+    tasks=[
+        _t('a', [P('x')]),
+        _t('b', [], [('a', 'class')], ['a']),
+    ],
+    rcs={'q1': dict(build='dict', mounts=[dict(ns=None, values={'x': 1})])},
+    lists=[['q1']],
+)
+
 # ---- deep: a <- b <- c <- e, the configurations differ only at the far end (chain-specific task below shared ones)
 family(
     'deep',
